@@ -403,3 +403,28 @@ func C01_SlotOperands() {
 	r.assertAgree("slot-operands")
 	verif.Reach("compared")
 }
+
+// C01_BigInts: CONCRETE INSTANCES - every binary operator on pairs of ints at
+// the edges of exact float64 representation and of the int64 range (as
+// literals and as variables): int operations stay in the ints.
+func C01_BigInts() {
+	vals := []string{
+		"9007199254740992", "9007199254740993", "9007199254740994", "0x20000000000001",
+		"9223372036854775807", "9223372036854775806", "4611686018427387905", "4611686018427387904",
+		"(0-9007199254740993)", "(0-9223372036854775807)", "(0-9223372036854775806)", "1", "0",
+	}
+	a := vals[verif.Choice("a", len(vals))]
+	b := vals[verif.Choice("b", len(vals))]
+	op := c01BinOps[verif.Choice("op", len(c01BinOps))]
+	var src string
+	if verif.Choice("route", 2) == 0 {
+		src = "print " + a + " " + op + " " + b + "\n"
+	} else {
+		src = "var v = " + a + "\ndef t {\n f = " + b + "\n g = v " + op + " f\n print g\n}\n"
+	}
+	r := runBoth(src, nil)
+	verif.Observe("out", r.Real.Out)
+	verif.Observe("err", errClass(r.Real.Err))
+	r.assertAgree("bigints")
+	verif.Reach("compared")
+}
